@@ -673,8 +673,11 @@ def run(ctx) -> dict:
     results.append(r10_7(ctx, counts))
     results.append(r10_8(ctx, counts))
     # memoised conversion helpers must be keyed by strings only (0.0 / -0.0 share a slot)
-    from .c05_purity import r05_7
+    from .c05_purity import r05_7, r05_10
     results.append(r05_7(ctx, counts))
+    _m = r05_10(ctx, counts)
+    _m.title = 'ARGUMENT-KEYED-MEMO (R05.10 shared: a cached constructor token serves one parser)'
+    results.append(_m)
     # the lexical -> value mapping of timezone offsets keeps the sign of -00:MM
     from .c11_datetime import r11_5
     results.append(r11_5(ctx, counts))
